@@ -156,3 +156,15 @@ Theorem C08_source_positions_fused : forall bit fuel data nbits cp cwp cw d' n' 
   g_pi_next bit fuel' d' n' cp' cwp' cw' = Val (d', n', cp', cwp', cw', None).
 Proof. exact g_pi_next_fused. Qed.
 Print Assumptions C08_source_positions_fused.
+
+(* the PUBLIC constructors of the position iterators regenerated as well (BitVector / BitVectorMut ::ones, zeros, ones_with_pos,
+   zeros_with_pos): the whole public path through regenerated functions only *)
+From QwtModel Require Import FnsIterCtorsOk.
+Theorem C08_source_positions_public : forall mutable bit b pos fuelw n,
+  bv_inv b -> pos < 2 ^ 64 -> (S (length (bv_words b)) <= fuelw)%nat -> len (bv_abs b) < N.of_nat n ->
+  (let! (d, nb, cp, cwp, cw) := g_bv_positions_from mutable bit (chunks 8 (bv_words b)) (bv_nbits b) pos in
+   g_pi_collect bit fuelw d nb cp cwp cw n) = Val (positions_from bit (bv_abs b) pos) /\
+  (let! (d, nb, cp, cwp, cw) := g_bv_positions mutable bit (chunks 8 (bv_words b)) (bv_nbits b) in
+   g_pi_collect bit fuelw d nb cp cwp cw n) = Val (positions_from bit (bv_abs b) 0).
+Proof. exact g_bv_positions_public. Qed.
+Print Assumptions C08_source_positions_public.
